@@ -321,6 +321,17 @@ def _run(seed, tape, opts, w):
         with open(os.path.join(w.recv_dir, name + ".tmp"), "wb") as f:
             f.write(prefix)
         sim.note("fault.stale_tmp_from_interrupted_attempt")
+    if stale is None and not fixed and payload[0] == "dir" and \
+            tape.choose(4, "stale_dir?") == 0:
+        # an unrelated directory '<name>.tmp' with files in it sits beside
+        # the destination of a directory transfer
+        base_name = name
+        for leaf in ("old-draft.txt", "sub/stale.bin"):
+            pth = os.path.join(w.recv_dir, base_name + ".tmp", leaf)
+            os.makedirs(os.path.dirname(pth), exist_ok=True)
+            with open(pth, "wb") as f:
+                f.write(b"left here earlier: " + leaf.encode())
+        sim.note("fault.stale_tmp_directory")
     want = snapshot(w.send_dir)
     # faults on the transit link
     cors = {}
